@@ -3,7 +3,7 @@
    regenerates from /repo's current source on every run: finite, exhaustive, decided by the
    kernel's evaluator.  Axiom-free. *)
 From Coq Require Import ZArith QArith Qabs List String Bool.
-From UomV Require Import Model.Tables Spec.Names Spec.Anchors Gen.SiTables Gen.SiReadings.
+From UomV Require Import Model.Tables Spec.Names Spec.Anchors Spec.C05Defs Gen.SiTables Gen.SiReadings.
 Import ListNotations.
 Open Scope string_scope.
 
@@ -11,16 +11,8 @@ Open Scope string_scope.
    1e-15 relative (the tables write some quotients such as 1/3.6 as 16-digit decimals).  Eleven
    customary units are declared with NIST SP 811 seven-digit values while their constituents are
    declared exactly; for these the agreement is required to 2e-6 (largest today: acre_foot 1.7e-6). *)
-Definition nist_rounded : list (string * string) := [
-  ("volume", "acre_foot"); ("energy", "foot_poundal"); ("volume", "cubic_inch"); ("volume", "cubic_foot");
-  ("volume", "cubic_yard"); ("energy", "foot_pound"); ("molar_energy", "foot_pound_force_per_mole");
-  ("area", "square_yard"); ("area", "square_mile"); ("volume", "cubic_mile"); ("inverse_velocity", "minute_per_mile")].
-Definition in_list (l : list (string * string)) (m n : string) : bool :=
-  existsb (fun p => String.eqb (fst p) m && String.eqb (snd p) n) l.
-Definition tol (m n : string) : Q := if in_list nist_rounded m n then (2 # 1000000)%Q else (1 # 1000000000000000)%Q.
 
 (* known finding F7 (KNOWN_FINDINGS.txt): identifier says W/(m K), unit is W/K *)
-Definition known : list (string * string) := [("thermal_conductance", "watt_per_meter_degree_celsius")].
 
 (* (1) every unit whose identifier is a composition has the coefficient and the dimension that the
    composition yields from the units it names — outside the known finding *)
@@ -56,40 +48,14 @@ Proof.
 Qed.
 
 (* (2) the base units named by system! have coefficient exactly 1, no offset, and the dimension e_i *)
-Definition unit_vector (n i : nat) : list Z := map (fun k => if Nat.eqb k i then 1%Z else 0%Z) (seq 0 n).
-Definition base_ok (i : nat) (b : base_decl) : bool :=
-  match find_quantity si_quantities (b_quantity b) with
-  | Some q => match find_unit q (b_unit b) with
-              | Some u => Qeq_bool (coef_q u) 1 && match u_const u with None => true | Some _ => false end
-                          && list_Z_eqb (q_dim q) (unit_vector (List.length si_base) i)
-              | None => false end
-  | None => false end.
-Fixpoint forallb_i {A} (f : nat -> A -> bool) (i : nat) (l : list A) : bool :=
-  match l with [] => true | x :: r => f i x && forallb_i f (S i) r end.
 Theorem c05_base_units_one : forallb_i base_ok 0 si_base = true.
 Proof. vm_compute. reflexivity. Qed.
 
 (* (3) every quantity has a coherent unit: coefficient exactly 1 and no offset *)
-Definition has_coherent_unit (q : quantity_decl) : bool :=
-  existsb (fun u => Qeq_bool (coef_q u) 1 && match u_const u with None => true | Some _ => false end) (q_units q).
 Theorem c05_coherent_unit_exists : forallb has_coherent_unit si_quantities = true.
 Proof. vm_compute. reflexivity. Qed.
 
 (* (4) anchors: exactly defined values; offsets; seven-digit class within 5e-7 *)
-Definition lookup_coef (m n : string) : option Q :=
-  match find_quantity si_quantities m with
-  | Some q => match find_unit q n with Some u => Some (coef_q u) | None => None end
-  | None => None end.
-Definition lookup_const (m n : string) : option Q :=
-  match find_quantity si_quantities m with
-  | Some q => match find_unit q n with Some u => Some (const_q u) | None => None end
-  | None => None end.
-Definition anchor_exact (a : string * string * Q) : bool :=
-  match lookup_coef (fst (fst a)) (snd (fst a)) with Some c => Qeq_bool c (snd a) | None => false end.
-Definition anchor_offset (a : string * string * Q) : bool :=
-  match lookup_const (fst (fst a)) (snd (fst a)) with Some c => Qeq_bool c (snd a) | None => false end.
-Definition anchor_seven (a : string * string * Q) : bool :=
-  match lookup_coef (fst (fst a)) (snd (fst a)) with Some c => close_q (5 # 10000000) c (snd a) | None => false end.
 Theorem c05_anchors_exact : forallb anchor_exact exact_anchors = true.
 Proof. vm_compute. reflexivity. Qed.
 Theorem c05_anchors_offsets : forallb anchor_offset offset_anchors = true.
@@ -98,27 +64,17 @@ Theorem c05_anchors_seven_digit : forallb anchor_seven seven_digit_anchors = tru
 Proof. vm_compute. reflexivity. Qed.
 
 (* only the two temperature-point scales carry an offset *)
-Definition offset_units : list (string * string) :=
-  flat_map (fun q => flat_map (fun u => match u_const u with Some _ => [(q_mod q, u_name u)] | None => [] end) (q_units q)) si_quantities.
 Theorem c05_only_two_offsets :
   offset_units = [("thermodynamic_temperature", "degree_celsius"); ("thermodynamic_temperature", "degree_fahrenheit")].
 Proof. vm_compute. reflexivity. Qed.
 
 (* (5) the prefix! table *)
-Definition prefix_ok10 (p : string * Z) : bool :=
-  match find (fun x => String.eqb (fst x) (fst p)) si_prefixes with
-  | Some (_, e) => Qeq_bool (eval_q e) (dec 1 (snd p)) | None => false end.
-Definition prefix_ok2 (p : string * Z) : bool :=
-  match find (fun x => String.eqb (fst x) (fst p)) si_prefixes with
-  | Some (_, e) => Qeq_bool (eval_q e) (inject_Z (1024 ^ snd p)) | None => false end.
 Theorem c05_prefix_table :
   forallb prefix_ok10 decimal_prefixes && forallb prefix_ok2 binary_prefixes
   && Nat.eqb (List.length si_prefixes) (List.length decimal_prefixes + List.length binary_prefixes) = true.
 Proof. vm_compute. reflexivity. Qed.
 
 (* (6) no coefficient is zero; unit names are unique within a quantity *)
-Definition names_unique (q : quantity_decl) : bool :=
-  (fix go (l : list unit_decl) := match l with [] => true | u :: r => negb (existsb (fun v => String.eqb (u_name v) (u_name u)) r) && go r end) (q_units q).
 Theorem c05_coefficients_nonzero_names_unique :
   forallb (fun q => forallb (fun u => negb (Qeq_bool (coef_q u) 0)) (q_units q) && names_unique q) si_quantities = true.
 Proof. vm_compute. reflexivity. Qed.
